@@ -43,11 +43,12 @@ Chain2(s) ==
     [] s = "golang" -> [i \in 1..17 |-> IF i % 2 = 0 THEN SemverChain[i] ELSE "v" \o SemverChain[i] \o (IF i \in {5, 10, 13} THEN "+incompatible" ELSE "")]
     \* local labels spelled with the letters of pre-release markers (ubuntu, deb, src, .a.) are not pre-releases;
     \* "c" is PEP 440's alternative spelling of "rc"
-    [] s = "pypi"   -> <<"0.1", "1.0+ubuntu1", "1.1a1", "1.1b2", "1.1c1", "1.1+src.1", "2.0.dev2", "2.0rc1", "2.0+deb.1", "2.0.post1+1.a.1",
-                         "3.0c1", "3.0", "3.0.1", "10.0", "10.1", "11.0", "1!0.1">>
-    [] s = "deb"    -> <<"0:0.9", "1.0~rc1", "0:1.0", "1.0-1", "1.0-1+b1", "1.0.1", "0:1.1", "1.10", "2.0~beta1", "2.0", "0:2.0-1",
+    [] s = "pypi"   -> <<"0.1", "1.0+ubuntu1", "1.1a1", "1.1b2", "1.1c1", "1.1", "2.0.dev2", "2.0rc1", "2.0+deb.1", "2.0.post1+1.a.1",
+                         "3.0c1", "3.0+src.1", "3.0.1", "10.0", "10.1", "11.0", "1!0.1">>
+    \* a bound without revision / release directly below the same upstream version with one (1.0 < 1.0-1)
+    [] s = "deb"    -> <<"0:0.9", "1.0", "1.0-1", "0:1.0-1+b1", "1.0.1~rc1", "1.0.1", "0:1.1", "1.10", "2.0~beta1", "2.0", "0:2.0-1",
                          "2.0+dfsg-1", "2.1", "3.0", "10.0", "1:0.1", "01:1.0">>
-    [] s = "rpm"    -> <<"0:0.9", "1.0~rc1", "0:1.0", "1.0-1.el8", "1.0-2.el8", "1.0.1", "0:1.1", "1.10", "2.0~beta1", "2.0",
+    [] s = "rpm"    -> <<"0:0.9", "1.0", "1.0-1.el8", "0:1.0-2.el8", "1.0.1~rc1", "1.0.1", "0:1.1", "1.10", "2.0~beta1", "2.0",
                          "0:2.0-1", "2.0-2", "2.1", "3.0", "10.0", "1:0.1", "1:1.0">>
     [] s = "maven"  -> <<"0.9", "1.0-ALPHA-1", "1.0-Beta-1", "1.0-RC1", "1.0.Final", "1.0.1", "1.1-ga", "1.10", "2.0-snapshot",
                          "2.0", "2.0.1", "2.1", "3.0", "3.0.1", "10.0", "10.1", "11.0">>
